@@ -238,7 +238,7 @@ def _ask_t(features):
 
 def _ask(features):
     rel = "r_ask::<M, T::Reply>(self.hv(), msg_id(msg), *old(w), *final(w), result, \"ask\"@)"
-    d = dict(ret="result", ensures=[
+    d = dict(ret="result", attrs=["#[verifier::rlimit(150)]"], ensures=[
         C("ask.relation", "C01 C02 C03 C13 C14 C15", rel),
         C("ask.dead_letters", "C13", "r_dl::<M>(self.id, old(w).log(), final(w).log(), dl_reason_ask::<T::Reply>(result), \"ask\"@)"),
         C("ask.frame", "C12", AMB_BUT_GRAPH if "deadlock-detection" in features else AMB),
@@ -612,6 +612,9 @@ UNDECIDED_STAND_IN = {
     "C16": ["erased_handles"], "C20": ["metrics_counts"],
     "C05": ["lifecycle_basic", "run_err", "start_fail", "stop_err_on_kill", "kill_preempt", "hook_panics"],
     "C04": ["lifecycle_basic", "run_err", "start_fail", "stop_err_on_kill", "hook_panics"],
+    "C03": ["ask_reply_integrity", "ask_join_outlives_actor", "sends_to_stopped"],
+    # feature-gated code outside the rules: the scenarios are run with every feature enabled
+    "C18": _DD + ["lifecycle_basic", "ask_reply_integrity", "sends_to_stopped", "kill_preempt"],
 }
 
 # labels of obligations that only exist for code the change itself added (new panic sites): a failure is a violation only when a
